@@ -63,6 +63,12 @@ def binding_fingerprints(fnode):
             out[n.name].append('except %s as $' % (norm_text(n.type) if n.type else ''))
         elif isinstance(n, ast.NamedExpr):
             add([n.target], n)
+    # nested function definitions are local bindings too
+    for n in ast.walk(fnode):
+        if isinstance(n, (ast.FunctionDef, ast.AsyncFunctionDef)) and n is not fnode:
+            a = n.args
+            out.setdefault(n.name, []).append('(def)(%s)' % ','.join(
+                x.arg for x in a.posonlyargs + a.args + a.kwonlyargs))
     return {k: tuple(sorted(v)) for k, v in out.items()}
 
 
@@ -110,6 +116,10 @@ def canonicalise(project):
                 n.id = ren[n.id]
             elif isinstance(n, ast.ExceptHandler) and n.name in ren:
                 n.name = ren[n.name]
+            elif isinstance(n, (ast.FunctionDef, ast.AsyncFunctionDef)) and n is not fi.node \
+                    and n.name in ren:
+                n.name = ren[n.name]
         for c, r in ren.items():
-            applied.append('%s: %s -> %s' % (key, c, r))
+            isdef = any('(def)' in x for x in cur.get(c, ()))
+            applied.append('%s: %s -> %s%s' % (key, c, r, ' (def)' if isdef else ''))
     return applied
